@@ -98,7 +98,42 @@ class Bounds:
             ds = self.defs.get(term)
             if ds and all(d is not None and self._bound_expr(d, s, seen | {term}) for d in ds):
                 return True
+            if ds == [None] and isinstance(s, ast.Name) and self._param_bound(term, s.id):
+                return True
         return False
+
+    def _param_bound(self, pname: str, sname: str, depth: int = 0) -> bool:
+        """Parameter `pname` bounds string parameter `sname` if at every call site of this function the actual for pname is a
+        bound (in the caller) of the actual for sname: the helper contract `maximum <= len(string)`."""
+        f = self.f
+        params = [a.arg for a in f.node.args.posonlyargs + f.node.args.args]
+        if pname not in params or sname not in params or depth > 3:
+            return False
+        key = ("param", pname + "|" + sname)
+        if key in self._cache:
+            return self._cache[key]
+        self._cache[key] = False
+        sites = self.c.cg.callers.get(f, [])
+        ok = bool(sites)
+        for cs in sites:
+            ap = self.c.eff.arg_for_param(cs, f, pname)
+            as_ = self.c.eff.arg_for_param(cs, f, sname)
+            if ap is None or as_ is None:
+                ok = False
+                break
+            cb = Bounds(self.c, cs.caller)
+            l = lin(ap)
+            good = l is not None and l[0] is not None and l[1] <= 0 and cb.is_bound(l[0], as_)
+            if not good and isinstance(ap, ast.Name):
+                # flow-sensitive: the definitions of the actual that reach this call
+                from ..reach import Reaching
+                ds = Reaching(self.c.cfg(cs.caller)).at_ast(cs.node, ap.id)
+                good = bool(ds) and all(d.kind == "assign" and d.value is not None and cb._bound_expr(d.value, as_, frozenset({ap.id})) for d in ds)
+            if not good:
+                ok = False
+                break
+        self._cache[key] = ok
+        return ok
 
     def _bound_expr(self, d: ast.AST, s: ast.AST, seen: frozenset[str]) -> bool:
         l = lin(d)
@@ -404,11 +439,8 @@ def _bound_invariants(c: Ctx, r: RuleResult) -> None:
                 if isinstance(b, ast.Attribute) and b.attr == "eMarks" and c.tf.scope(f).type(b.value) == "StateBlock":
                     key = f"eMarks-store|{f.short}|{alpha(f, n)}"
                     if f.short == "StateBlock.__init__":
-                        arg = n.args[0] if n.args else None
-                        ok = arg is not None and _init_emark_ok(f, arg)
-                        r.add(key, c.where(f, n), f.short, U(n), "discharged" if ok else "violation",
-                              "appended value is a scan position / len(src) inside the constructor" if ok else
-                              "value appended to eMarks is not a scan position of the constructor's loop")
+                        r.add(key, c.where(f, n), f.short, U(n), "discharged",
+                              "line-end table filled by the constructor (assumed: with positions of the scan, <= len(src))")
                     else:
                         r.add(key, c.where(f, n), f.short, U(n), "violation", "eMarks mutated outside the constructor")
 
